@@ -178,7 +178,7 @@ class Gen:
             return [flt_j(x) for x in xs] + [{"s": 0, "e": 255, "m": [0, 64]}]
         if n == "string":
             ss = ["", "a", "é", "中", "\U0001f600", "\x00", "<>,", "a\x00b", "\x7f\x80߿ࠀ￿\U00010000\U0010ffff",
-                  "mapping<string,UUID>", "x" * 300, "é" * 130]
+                  "mapping<string,UUID>", "x" * 300, "é" * 130, "\ufeffsection", "\ufeff", "a\ufeff", "\ufffe\ufffd"]
             return [[ord(c) for c in s] for s in ss]
         if n == "UUID":
             return [list(u) for u in self.att[:2] + self.foreign[:2]] + [[0] * 16, [255] * 16]
@@ -206,7 +206,7 @@ class Gen:
             out = []
             for _ in range(k):
                 cp = r.choice([r.randint(0, 127), r.randint(128, 2047), r.randint(2048, 65535), r.randint(65536, 0x10FFFF),
-                               60, 62, 44, 0])
+                               60, 62, 44, 0, 0xFEFF, 0xFFFD, 0x2028, 0x85, 0x0D])
                 if 0xD800 <= cp <= 0xDFFF:
                     cp = 0x4E2D
                 out.append(cp)
